@@ -73,16 +73,23 @@ def c13(tier, seed):
         return 2
     L = 30 if tier == "quick" else 40
     kws = ["BUY", "SELL", "DIVIDEND", "SPLIT", "UNSPLIT"] if tier == "quick" else KEYWORDS
-    tmo = 240 if tier == "quick" else 1500
+    tmo = 400 if tier == "quick" else 1800
     wd = symx.workdir("c13")
     inconclusive, lines, vio_paths = [], [], []
 
-    def run_kw(kw):
-        out = os.path.join(wd, f"{kw}.json")
-        p = subprocess.run([PY, os.path.join(symx.ROOT, "pegsmt/run.py"), "worker", symx.REPO, dump, str(L), kw, out, str(tmo)], capture_output=True, text=True, timeout=tmo * 12)
+    # the trade commands have the most optional clauses: their obligations are split over three processes
+    jobs = []
+    for kw in kws:
+        n = 3 if kw in ("BUY", "SELL") else 1
+        jobs += [(kw, f"{i}/{n}") for i in range(n)]
+
+    def run_kw(job):
+        kw, part = job
+        out = os.path.join(wd, f"{kw}-{part.replace('/', 'of')}.json")
+        p = subprocess.run([PY, os.path.join(symx.ROOT, "pegsmt/run.py"), "worker", symx.REPO, dump, str(L), kw, out, str(tmo), part], capture_output=True, text=True, timeout=tmo * 12)
         if os.path.exists(out):
             return json.load(open(out))
-        return {"keyword": kw, "obligations": [], "error": p.stderr[-400:]}
+        return {"keyword": kw, "obligations": [], "planned": 0, "error": p.stderr[-400:]}
 
     def run_corpus():
         texts = corpus_texts(L)
@@ -93,9 +100,9 @@ def c13(tier, seed):
         real = symx.run_replay("C13parse", [{"id": f"c{i}", "base": "2024-01-10", "lines": [], "opts": {"texts": [t]}, "values": {}} for i, t in enumerate(texts)], "c13corpus")
         return texts, enc, real, p.stderr[-300:]
 
-    with ThreadPoolExecutor(len(kws) + 1) as ex:
+    with ThreadPoolExecutor(len(jobs) + 1) as ex:
         fc = ex.submit(run_corpus)
-        results = list(ex.map(run_kw, kws))
+        results = list(ex.map(run_kw, jobs))
         texts, enc, real, cerr = fc.result()
 
     # --- validation of the encoding on the corpus
@@ -130,7 +137,7 @@ def c13(tier, seed):
             continue
         if r.get("reachable", {}).get("verdict") != "sat":
             inconclusive.append(f"no accepted line with keyword {r['keyword']} within L={L}: the obligations for it are vacuous ({r.get('reachable')})")
-        elif len(samples) < 4:
+        elif len(samples) < 4 and r.get("part", "0/1").startswith("0/"):
             samples.append({"keyword": r["keyword"], "accepted_example": r["reachable"]["example"], "obligations": [[o["name"], o["verdict"], o["s"]] for o in r["obligations"]]})
         for o in r["obligations"]:
             n_ob += 1
@@ -153,8 +160,8 @@ def c13(tier, seed):
             else:
                 inconclusive.append(f"obligation {o['name']}/{r['keyword']} undecided ({o['verdict']} after {o['s']}s)")
         done = {o["name"] for o in r["obligations"]}
-        if len(done) < 7:
-            inconclusive.append(f"worker {r['keyword']} finished only {len(done)} of 7 obligations")
+        if len(done) < r.get("planned", 7):
+            inconclusive.append(f"worker {r['keyword']} {r.get('part')} finished only {len(done)} of {r.get('planned')} obligations")
     wall = time.time() - t0
     ev = {
         "property_id": pid, "tier": tier, "seed": seed, "level": "model_checking",
